@@ -27,6 +27,8 @@ TShapes(i) ==
     TShape("nopayload", Nil, Nil, Nil, Nil, Nil),
     TShape("payload", Nil, Nil, Nil, Nil, Nil),
     TShape("payload", Some(20 + i), Nil, Nil, Nil, Nil),
+    TShape("payload", Some(0), Nil, Nil, Nil, Nil),               \* a story of zero seconds has a duration
+    TShape("payload", Nil, Some(0), Some(0), Nil, Nil),
     TShape("payload", Nil, Some(12 + 4*i), Nil, Nil, Nil),
     TShape("payload", Nil, Nil, Some(8 + i), Nil, Nil),
     TShape("payload", Nil, Some(12 + i), Some(10), Nil, Nil),
